@@ -28,8 +28,30 @@ Definition slot_dbl (sl:list (nat * argval)) (k:nat) : Z := match lookup k sl wi
 Definition wrapz (w:Z) (s:bool) (v:Z) : Z :=
   let u := v mod 2^w in if s && (2^(w-1) <=? u) then u - 2^w else u.
 
-Definition deval (r:env) (d:dexpr) : Z :=
-  match d with DArg a => arg_dbl (e_args r) a | DConst b => b | DSlot k => slot_dbl (e_slots r) k end.
+Definition fneg (x:fval) : fval := match x with FNaN => FNaN | FInf s => FInf (negb s) | FFin s m e => FFin (negb s) m e end.
+
+Fixpoint deval (r:env) (d:dexpr) : Z :=
+  match d with
+  | DArg a => arg_dbl (e_args r) a
+  | DConst b => b
+  | DSlot k => slot_dbl (e_slots r) k
+  | DAdd a b => encode b64 (fadd b64 (decode b64 (deval r a)) (decode b64 (deval r b)))
+  | DSub a b => encode b64 (fadd b64 (decode b64 (deval r a)) (fneg (decode b64 (deval r b))))
+  end.
+
+(* comparison of two doubles as exact values; None when one of them is NaN *)
+Definition fcmp (a b:fval) : option comparison :=
+  match a, b with
+  | FNaN, _ | _, FNaN => None
+  | FInf s, FInf t => Some (if Bool.eqb s t then Eq else if s then Lt else Gt)
+  | FInf s, FFin _ _ _ => Some (if s then Lt else Gt)
+  | FFin _ _ _, FInf t => Some (if t then Gt else Lt)
+  | FFin s m e, FFin t n g =>
+    let k := Z.min e g in Some (Z.compare (signed_m s m * 2^(e-k)) (signed_m t n * 2^(g-k)))
+  end.
+Definition dlt (x y:Z) : bool := match fcmp (decode b64 x) (decode b64 y) with Some Lt => true | _ => false end.
+Definition dle (x y:Z) : bool := match fcmp (decode b64 x) (decode b64 y) with Some Lt | Some Eq => true | _ => false end.
+Definition deq (x y:Z) : bool := match fcmp (decode b64 x) (decode b64 y) with Some Eq => true | _ => false end.
 
 (* double -> integer: the truncated value, and whether it is representable in the target type (otherwise the C++ is undefined) *)
 Definition d2i_val (bits:Z) : Z := match decode b64 bits with FFin sg m e => ftrunc sg m e | _ => 0 end.
@@ -67,13 +89,16 @@ Fixpoint ieval (r:env) (e:iexpr) : Z :=
   | ELt a b => b2z (ieval r a <? ieval r b)
   | ELe a b => b2z (ieval r a <=? ieval r b)
   | ECond c a b => if ieval r c =? 0 then ieval r b else ieval r a
+  | EDLt a b => b2z (dlt (deval r a) (deval r b))
+  | EDLe a b => b2z (dle (deval r a) (deval r b))
+  | EDEq a b => b2z (deq (deval r a) (deval r b))
   | ED2I w s d => if d2i_ok w s (deval r d) then d2i_val (deval r d) else 0
   end.
 
 (* does evaluating e perform an undefined conversion?  (only the branch of a conditional that is taken counts) *)
 Fixpoint iub (r:env) (e:iexpr) : bool :=
   match e with
-  | EArg _ | ESlot _ | EConst _ | EPgn | EDataLen => false
+  | EArg _ | ESlot _ | EConst _ | EPgn | EDataLen | EDLt _ _ | EDLe _ _ | EDEq _ _ => false
   | EAnd a b | EOr a b | EXor a b | EAdd a b | ESub a b | EMul a b | EDiv a b | EEq a b | ENe a b | ELt a b | ELe a b => iub r a || iub r b
   | EShl a _ | EShr a _ | ENot a | ECast _ _ a | EBool a | ELNot a => iub r a
   | ECond c a b => iub r c || (if ieval r c =? 0 then iub r b else iub r a)
@@ -134,6 +159,12 @@ Definition get_var_str (size nul idx datalen:Z) (data:list Z) : option (list Z) 
       else (None, true, 0, i2 + l, false)
     else (None, true, 0, i2 + l, true).
 
+(* SetBufNByte[U]Double(v, precision): quantisation without the "not available" substitution of AddNByte[U]Double *)
+Definition set_double_raw (n:nat) (s:bool) (vbits pbits:Z) : list Z :=
+  let q := fdiv b64 (decode b64 vbits) (decode b64 pbits) in
+  let code := if (n =? 8)%nat then set_code8 q else set_code n s (own_round q) in
+  le_bytes n (code mod 256^(Z.of_nat n)).
+
 (* ---------- setters ---------- *)
 Fixpoint until_zero (l:list Z) : list Z := match l with [] => [] | x :: r => if x =? 0 then [] else x :: until_zero r end.
 Fixpoint exec_w (r:env) (w:wstmt) (data:list Z) : option (list Z) :=
@@ -142,6 +173,7 @@ Fixpoint exec_w (r:env) (w:wstmt) (data:list Z) : option (list Z) :=
   | WSeq a b => match exec_w r a data with Some d => exec_w r b d | None => None end
   | WInt n e => if iub r e then None else Some (data ++ add_int n (ieval r e))
   | WDouble n s p d => Some (data ++ add_double n s (deval r d) p)
+  | WDoubleRaw n s p d => Some (data ++ set_double_raw n s (deval r d) p)
   | WStr len a => Some (data ++ add_str len (arg_txt (e_args r) a))
   | WAISStr len a => Some (data ++ add_ais_str (zlen data) len (arg_txt (e_args r) a))
   | WVarStr mx a => Some (data ++ add_var_str (zlen data) mx (arg_txt (e_args r) a))
